@@ -2,6 +2,7 @@ package main
 
 import (
 	"fmt"
+	"go/ast"
 	"os"
 	"go/token"
 	"go/types"
@@ -300,6 +301,10 @@ func (fx *FX) specVal(x *SX, env *SEnv, cur, old *State) Val {
 	case "cast":
 		v := fx.specVal(x.A[0], env, cur, old)
 		srt, gt := e.resolveType(x.Name, env.pkg)
+		if v.S == SIface && srt == SIface {
+			v.GT = gt
+			return v
+		}
 		if v.S == SIface {
 			if srt == SRef {
 				return Val{T: App("iref", v.T), S: SRef, GT: gt}
@@ -819,54 +824,145 @@ func (a *act) localVar(name string, header *ssa.BasicBlock, st *State) (Val, boo
 				v := a.vals[phi]
 				return Val{T: fmt.Sprintf("(+ %s 1)", v.T), S: SInt, GT: types.Typ[types.Int]}, true
 			}
+			if name == "$r" && phi.Comment == "rangeindex" {
+				// the slice being ranged over: the argument of the len() call bounding the counter
+				if ifi, ok := header.Instrs[len(header.Instrs)-1].(*ssa.If); ok {
+					if cmp, ok := ifi.Cond.(*ssa.BinOp); ok {
+						if call, ok := cmp.Y.(*ssa.Call); ok {
+							if b, ok := call.Call.Value.(*ssa.Builtin); ok && b.Name() == "len" {
+								rv := a.val(call.Call.Args[0], st)
+								rv.GT = call.Call.Args[0].Type()
+								return rv, true
+							}
+						}
+					}
+				}
+			}
 		}
 	}
-	// DebugRefs: a variable assigned once has a single non-constant SSA value; otherwise take the last value bound in a
-	// block dominating the header.
+	// Reaching definition at the header: among the SSA values bound to the variable (phis named after it and values
+	// recorded by DebugRefs), the one whose definition dominates the header and is dominated by all the others.
 	var best ssa.Value
 	var bestAddr bool
-	distinct := map[ssa.Value]bool{}
-	var only ssa.Value
-	var onlyAddr bool
+	type cand struct {
+		v    ssa.Value
+		addr bool
+		blk  *ssa.BasicBlock
+		idx  int
+	}
+	var cands []cand
+	seen := map[ssa.Value]bool{}
 	var constCand ssa.Value
+	add := func(v ssa.Value, addr bool) {
+		if seen[v] {
+			return
+		}
+		if _, isConst := v.(*ssa.Const); isConst {
+			if constCand == nil {
+				constCand = v
+			}
+			return
+		}
+		seen[v] = true
+		switch x := v.(type) {
+		case *ssa.Parameter, *ssa.FreeVar, *ssa.Global, *ssa.Function:
+			cands = append(cands, cand{v, addr, a.fn.Blocks[0], -1})
+		case ssa.Instruction:
+			blk := x.Block()
+			idx := 0
+			for k, in := range blk.Instrs {
+				if in == x {
+					idx = k
+				}
+			}
+			cands = append(cands, cand{v, addr, blk, idx})
+		}
+	}
 	for _, b := range a.fn.Blocks {
 		for _, in := range b.Instrs {
-			d, ok := in.(*ssa.DebugRef)
-			if !ok {
-				continue
-			}
-			obj := d.Object()
-			if obj == nil || obj.Name() != name {
-				continue
-			}
-			vv, isVar := obj.(*types.Var)
-			if !isVar || vv.IsField() {
-				continue
-			}
-			if _, isConst := d.X.(*ssa.Const); isConst {
-				if constCand == nil {
-					constCand = d.X
+			switch d := in.(type) {
+			case *ssa.Phi:
+				if d.Comment == name {
+					add(d, false)
 				}
-				continue
-			}
-			if !distinct[d.X] {
-				distinct[d.X] = true
-				only, onlyAddr = d.X, d.IsAddr
-			}
-			if header != nil && (!b.Dominates(header) || b == header) {
-				continue
-			}
-			if _, computed := a.vals[d.X]; computed || isConstOrParam(d.X) {
-				best, bestAddr = d.X, d.IsAddr
+			case *ssa.DebugRef:
+				obj := d.Object()
+				if obj == nil || obj.Name() != name {
+					continue
+				}
+				if vv, isVar := obj.(*types.Var); isVar && !vv.IsField() {
+					add(d.X, d.IsAddr)
+				}
 			}
 		}
 	}
-	if len(distinct) == 1 {
-		if _, computed := a.vals[only]; computed || isConstOrParam(only) {
-			best, bestAddr = only, onlyAddr
+	// x := rhs / x = rhs: the DebugRef of the defining identifier is emitted before the store (it shows the zero
+	// value), so take the value recorded for the right-hand side expression instead.
+	if syn := a.fn.Syntax(); syn != nil {
+		byExpr := map[ast.Expr]*ssa.DebugRef{}
+		for _, b := range a.fn.Blocks {
+			for _, in := range b.Instrs {
+				if d, ok := in.(*ssa.DebugRef); ok && d.Expr != nil {
+					byExpr[d.Expr] = d
+				}
+			}
+		}
+		ast.Inspect(syn, func(n ast.Node) bool {
+			as, ok := n.(*ast.AssignStmt)
+			if !ok || len(as.Lhs) != len(as.Rhs) {
+				return true
+			}
+			for i, lh := range as.Lhs {
+				id, ok := lh.(*ast.Ident)
+				if !ok || id.Name != name {
+					continue
+				}
+				rhs := as.Rhs[i]
+				for {
+					if p, ok := rhs.(*ast.ParenExpr); ok {
+						rhs = p.X
+						continue
+					}
+					break
+				}
+				if d, ok := byExpr[rhs]; ok && !d.IsAddr {
+					add(d.X, false)
+				}
+			}
+			return true
+		})
+	}
+	for _, c := range cands {
+		if header != nil {
+			if !(c.blk.Dominates(header)) {
+				continue
+			}
+			if c.blk == header {
+				if _, isPhi := c.v.(*ssa.Phi); !isPhi {
+					continue
+				}
+			}
+		}
+		if _, computed := a.vals[c.v]; !computed && !isConstOrParam(c.v) {
+			continue
+		}
+		if best == nil {
+			best, bestAddr = c.v, c.addr
+			continue
+		}
+		// is c later than best?
+		var bb *ssa.BasicBlock
+		bi := -1
+		for _, o := range cands {
+			if o.v == best {
+				bb, bi = o.blk, o.idx
+			}
+		}
+		if (bb != c.blk && bb.Dominates(c.blk)) || (bb == c.blk && c.idx > bi) {
+			best, bestAddr = c.v, c.addr
 		}
 	}
-	if best == nil && constCand != nil && len(distinct) == 0 {
+	if best == nil && constCand != nil && len(cands) == 0 {
 		best = constCand
 	}
 	if best == nil {
